@@ -20,7 +20,7 @@ try:
     rc, out = sh("git -C /repo worktree add -q --detach %s HEAD" % wt)
     assert rc == 0, out
     demo = open(os.path.join(src, "demo.py")).read()
-    old = re.search(r"/tmp/mut2?/C\d\d", demo)
+    old = re.search(r"/tmp/mut\d?/C\d\d", demo)
     demo_wt = demo.replace(old.group(0), wt) if old else demo
     open(os.path.join(wt, "_demo.py"), "w").write(demo_wt)
     rc0, o0 = sh("PYTHONPATH=%s /venv/bin/python -W ignore _demo.py" % wt, cwd=wt)
